@@ -88,14 +88,28 @@ class Baton:
 
 
 def _tracer(baton, tid):
+    # Module bodies run under importlib's per-module lock, a REAL lock the baton does not own: a thread parked inside an import
+    # while another thread imports the same module would deadlock the simulation (found: cold histories, lazily imported
+    # cola.linalg.* modules).  While a thread executes a module body (or anything called from it) it is not pre-empted.
+    importing = [0]
+
     def local(frame, event, arg):
-        if event == "line":
+        if event == "line" and not importing[0]:
             baton.yield_point(tid, (frame.f_code.co_filename, frame.f_lineno) if baton.lines is not None else None)
         return local
 
+    def module_body(frame, event, arg):
+        if event == "return":
+            importing[0] -= 1
+        return module_body
+
     def glob(frame, event, arg):
-        if event == "call" and frame.f_code.co_filename.startswith(REPO_COLA):
-            return local
+        if event == "call":
+            if frame.f_code.co_name == "<module>":
+                importing[0] += 1
+                return module_body
+            if frame.f_code.co_filename.startswith(REPO_COLA):
+                return local
         return None
 
     return glob
